@@ -1,5 +1,5 @@
 (* C04 — caches are transparent for every history of calls, failures and rebuilds. *)
-From Connectome Require Import Values Attrs VM Edges EdgesGen Store Evaluator L2 HashSound SpecEq EqFacts C01Inst C04Main Total Examples.
+From Connectome Require Import Values Attrs VM Edges EdgesGen Store Evaluator L2 HashSound SpecEq EqFacts C01Inst C04Main Total RaiseDir C01Raise Examples.
 Local Open Scope list_scope.
 
 (* Every history of calls and clears, on any sequence of graphs sharing the caches (rebuilds, pipeline variants
@@ -14,6 +14,20 @@ Theorem C04_history_transparent :
   forall (ops : list hop2) (σ : cstore), CInvS apply σ -> Forall (op_ok apply) ops -> hist apply interfere σ ops.
 Proof. exact history_transparent. Qed.
 Print Assumptions C04_history_transparent.
+
+(* "... or propagates the user exception": a call on a pipeline with RAM and disk caches whose failure-free value is v,
+   from any store meeting the invariant and under any behaviour of the user functions, is at every step still
+   running, or has returned v, or has stopped with the exception of a user function that raised - never an internal
+   error of the engine or the caches. *)
+Theorem C04_failures_are_user_exceptions :
+  forall apply (c : hcall) v σ (interfere : cstore -> cstore) raises,
+  (forall s, CInvS apply s -> CInvS apply (interfere s)) ->
+  call_ok apply {| hc_g := hc_g c; hc_ins := hc_ins c; hc_o := hc_o c; hc_raises := quiet |} v -> CInvS apply σ ->
+  exists k s', forall k',
+    let out := call (shape (hc_g c)) (gens_of (hc_g c)) apply raises cstore cget cset interfere (hc_ins c) (hc_o c) σ k' in
+    (exists s1, out = Running cstore s1 /\ k' < k) \/ out = Finished cstore (SVal v) s' \/ user_raise raises cstore out.
+Proof. exact cached_only_user_exceptions. Qed.
+Print Assumptions C04_failures_are_user_exceptions.
 
 (* the empty store of any cache configuration satisfies the invariant, and clear keeps it *)
 Theorem C04_fresh_store_ok :
